@@ -386,6 +386,25 @@ def vector_cases(d: tuple) -> Iterator[tuple[str, str]]:
                     f"explicit wrong dimension: verdict {g2}, reference {w2}")
 
 
+def complex_vector_cases(d: tuple) -> Iterator[tuple[str, str]]:
+    """quantity vectors with complex components whose plain squares cancel (3, 4, 5i), (1, i, 0):
+    they are not zero vectors"""
+    from symplyphysics import Quantity, QuantityVector
+    D = dim_expr(d)
+    wrong = list(d)
+    wrong[0] += 1
+    wrongv = tuple(wrong)
+    if all(x == 0 for x in d) or all(x == 0 for x in wrongv):
+        return
+    for name, comps in (("3,4,5i", (3, 4, 5 * sp.I)), ("1,i,0", (1, sp.I, 0)), ("i,1", (sp.I, 1))):
+        tag = f"{vec(d)}<-complexvec:{name}"
+        good = QuantityVector([Quantity(c * unit_expr(d)) for c in comps])
+        bad = QuantityVector([Quantity(c * unit_expr(wrongv)) for c in comps])
+        yield tag + "|right", expect(OK, call_input(D, good))
+        yield tag + "|wrong", expect(verdict(d, wrongv), call_input(D, bad))
+        yield tag + "|result-wrong", expect(verdict(d, wrongv), call_output(D, bad), must_name=None)
+
+
 # named derived dimensions / units spelled differently
 def named_cases() -> Iterator[tuple[str, str]]:
     from sympy.physics import units as U
@@ -448,7 +467,7 @@ def _work(item: tuple) -> dict:
     elif kind == "seq":
         gen = container_cases(payload)
     elif kind == "vec":
-        gen = vector_cases(payload)
+        gen = itertools.chain(vector_cases(payload), complex_vector_cases(payload))
     else:
         gen = named_cases()
     for key, viol in gen:
